@@ -91,6 +91,11 @@ def like_table(p, v):
     if v == v:
         t("hash", hash)            # hash(nan) is identity based since 3.10: two plain NaNs differ too
     t("bool", bool); t("format", lambda x: format(x, "")); t("fstring", lambda x: f"{x!s:>6}")
+    for spec in (">5", "<3", "^7", "05", "d", "x", "b", ".2f", "e", "%", "s", ",", "+"):
+        t(f"format:{spec}", lambda x, spec=spec: format(x, spec))
+        t(f"strformat:{spec}", lambda x, spec=spec: ("{:" + spec + "}").format(x))
+    t("percent-d", lambda x: "%d" % x); t("percent-s", lambda x: "%s" % x); t("percent-5.1f", lambda x: "%5.1f" % x)
+    t("str", str)
     t("dictkey", lambda x: {x: 1}.get(v if v == v else x, "miss"))
     t("sorted", lambda x: sorted([x, v])[0] == sorted([v, v])[0] if v == v else True)
     t("neg", lambda x: -x); t("abs", abs); t("int", int); t("float", float); t("len", len)
@@ -140,7 +145,14 @@ def impl(line):
             return "err class-changed"
         if list(q.items()) != list(pkt.items()) and not any(isinstance(x, float) and x != x for x in pkt.values()):
             return "err items-differ"
-        return "ok " + xser.show_pkt(q)
+        shown = "ok " + xser.show_pkt(q)
+        if t[4] != "copy" and t[4] != "method":
+            # a deep copy / an unpickled packet is a packet of its own: moving its cursor leaves the original where it was
+            before = pkt.raw_data.pos
+            q.raw_data.pos = before + 8
+            if pkt.raw_data.pos != before:
+                return "err copy-shares-cursor"
+        return shown
     raise ValueError(line)
 
 
